@@ -179,6 +179,8 @@ NormTable(ev) ==
        THEN ChainOf(ev.outs, ev.slots[i].opos) ELSE <<"bad chain">>>>]
 TableKey(a) == <<"table", a.var, a.kind, a.bpats, [i \in 1..Len(a.pats) |-> ValStr(a, i)]>>
 
+AbsKey(a) == <<"absok", a.kind, a.bpats, [i \in 1..Len(a.pats) |-> ValStr(a, i)]>>
+
 TableFails(s, a, ev) ==
   IF IsBig(a.pats) THEN {} ELSE
   LET nfa    == a.aut
@@ -194,6 +196,18 @@ TableFails(s, a, ev) ==
       outsRanked == \A k \in 1..Len(ev.outs) : ev.outs[k].parent >= 0 /\ ev.outs[k].parent < k
       oposOK == \A i \in 1..n : slots[i].opos >= 0 /\ slots[i].opos <= Len(ev.outs)
       TP     == SEARCHPROPS
+      failOK == \A i \in 1..n :
+                  LET f  == slots[i].failidx
+                      sf == nfa.st[nodeOf[i]].fail IN
+                  IF i = 1 THEN TRUE
+                  ELSE IF sf = DEAD THEN f = 0
+                  ELSE f >= 1 /\ f <= n /\ nodeOf[f] = sf
+      outsOK == \A i \in 1..n :
+                  LET rc  == RealChain(a, ev.outs, slots[i].opos)
+                      sc2 == SpecChain(a, nfa.st[nodeOf[i]].opos) IN
+                  IF lm THEN HeadOf(rc) = HeadOf(sc2) ELSE rc = sc2
+      \* this table encodes exactly the automaton of the specification
+      absOK  == iso /\ outsRanked /\ oposOK /\ failOK /\ outsOK
   IN
      \* relational properties: the same automaton as the reference table of this scenario
      \* (C09: restored = original, C11: other num_free_blocks = default)
@@ -246,23 +260,37 @@ TableFails(s, a, ev) ==
                /\ e[1] >= 1 /\ e[1] <= n /\ e[3] >= 1 /\ e[3] <= n
                /\ nodeOf[e[3]] = NextStateR(nfa, nodeOf[e[1]], e[2], lm).t)
      \* fail links (needed for the for-all-haystacks argument when `nexts` is not dumped)
-  \cup Chk("table.fail_exact", TP,
-           iso =>
-             \A i \in 1..n :
-               LET f  == slots[i].failidx
-                   sf == nfa.st[nodeOf[i]].fail IN
-               IF i = 1 THEN TRUE
-               ELSE IF sf = DEAD THEN f = 0
-               ELSE f >= 1 /\ f <= n /\ nodeOf[f] = sf)
+  \cup Chk("table.fail_exact", TP, iso => failOK)
      \* output lists: values and lengths, longest first (standard); head only (leftmost)
-  \cup Chk("table.outputs_exact", TP \cup {"C06"},
-           iso /\ outsRanked /\ oposOK =>
-             \A i \in 1..n :
-               LET rc == RealChain(a, ev.outs, slots[i].opos)
-                   sc2 == SpecChain(a, nfa.st[nodeOf[i]].opos) IN
-               IF lm THEN HeadOf(rc) = HeadOf(sc2) ELSE rc = sc2)
+  \cup Chk("table.outputs_exact", TP \cup {"C06"}, iso /\ outsRanked /\ oposOK => outsOK)
+     \* C08 (relational): the byte-wise twin built from the UTF-8 bytes of the same patterns and the
+     \* char-wise automaton are either both exactly the specification's automata or both are not
+  \cup Chk("table.twin_agrees", {"C08"},
+           a.var = "C" /\ AbsKey(a) \in DOMAIN s.seen => s.seen[AbsKey(a)] = absOK)
   \cup Chk("table.kind", {"C09"} \cup TP,
            ev.kindbyte = (CASE a.kind = "STD" -> 0 [] a.kind = "LL" -> 1 [] a.kind = "LF" -> 2))
+
+\* does the table of a byte-wise automaton encode exactly the specification's automaton?
+\* (the conjuncts of TableFails that are absolute, evaluated regardless of PROP)
+TableAbsOK(a, ev) ==
+  LET nfa    == a.aut
+      slots  == ev.slots
+      n      == Len(slots)
+      nodeOf == MapSlots(nfa, slots, 1, <<>>)
+      lm     == a.kind # "STD"
+      iso    == /\ n = Cardinality(Nodes(nfa)) /\ ev.extra = <<>>
+                /\ \A i \in 1..n : nodeOf[i] # 0
+                /\ Cardinality({nodeOf[i] : i \in 1..n}) = n
+      outsRanked == \A k \in 1..Len(ev.outs) : ev.outs[k].parent >= 0 /\ ev.outs[k].parent < k
+      oposOK == \A i \in 1..n : slots[i].opos >= 0 /\ slots[i].opos <= Len(ev.outs)
+  IN /\ iso /\ outsRanked /\ oposOK
+     /\ \A i \in 1..n :
+          LET f == slots[i].failidx sf == nfa.st[nodeOf[i]].fail IN
+          IF i = 1 THEN TRUE ELSE IF sf = DEAD THEN f = 0 ELSE f >= 1 /\ f <= n /\ nodeOf[f] = sf
+     /\ \A i \in 1..n :
+          LET rc == RealChain(a, ev.outs, slots[i].opos)
+              sc2 == SpecChain(a, nfa.st[nodeOf[i]].opos) IN
+          IF lm THEN HeadOf(rc) = HeadOf(sc2) ELSE rc = sc2
 
 \* ---------------------------------------------------------------------------
 \* other events
@@ -356,8 +384,12 @@ Eff(s, ev, r) ==
          LET key == RefKey(s.autos[ev.h], ev.method, ev.hay) IN
          IF key \in DOMAIN s.seen THEN s ELSE [s EXCEPT !.seen = (key :> Got(ev.res)) @@ @]
     [] ev.ev = "table" ->
-         LET key == TableKey(s.autos[ev.h]) IN
-         IF key \in DOMAIN s.seen THEN s ELSE [s EXCEPT !.seen = (key :> NormTable(ev)) @@ @]
+         LET a   == s.autos[ev.h]
+             key == TableKey(a)
+             s1  == IF key \in DOMAIN s.seen THEN s ELSE [s EXCEPT !.seen = (key :> NormTable(ev)) @@ @]
+         IN \* C08: remember whether the byte-wise twin is exact
+            IF PROP = "C08" /\ a.var = "B" /\ ~IsBig(a.pats) /\ AbsKey(a) \notin DOMAIN s1.seen
+            THEN [s1 EXCEPT !.seen = (AbsKey(a) :> TableAbsOK(a, ev)) @@ @] ELSE s1
     [] ev.ev = "roundtrip" ->
          [s EXCEPT !.autos = (ev.h2 :> [s.autos[ev.h] EXCEPT !.restored = TRUE]) @@ @]
     [] ev.ev = "iter_new" ->
